@@ -1,10 +1,12 @@
 """C01 - untrusted font data is rejected with an error, never a crash.
 
 TLC (MC_FaultModel): (a) enumerates the abstract fault sequences of FaultModel.tla by (kind, role,
-value class, level; value classes = eleven byte-level ones, for offset / index fields the
-reference classes self / parent, and for fields that are elements of an array the ten relational
+value class, level; value classes = twelve byte-level ones, for offset / index fields the
+reference classes self / parent, for fields that are elements of an array the ten relational
 classes: equal to / one above / one below the previous or next element, sum with it wraps the
-field's width as an unsigned / signed number) - every sequence of at most two faults, thorough: triples on directory / header
+field's width as an unsigned / signed number, for size / count / end-offset fields the two derived
+classes: one less than / half of the value the other fields imply, and for format / flag fields the
+sixteen bit classes: one bit toggled) - every sequence of at most two faults, thorough: triples on directory / header
 fields - one CASE per sequence; (b) applies every concrete fault sequence up to the bound to three
 model files (sfnt, collection, WOFF) and checks the model's own lemmas (the file never grows, the
 container-level expectation is total, the judge's view gives the expectation of Sfnt.tla's reader, a
@@ -55,6 +57,10 @@ ASSUMPTIONS = [
     "quick tier: every structural non-value field is crossed with every value class, and every array element (value fields "
     "included) with every relational class, only on the champion inputs (a cover of all kinds of field per table kind; every "
     "variable font); elsewhere table-level fields are sampled by seed",
+    "the bit classes (bit0 .. bit15: one bit of the field toggled) are instantiated on the fields of role version - format "
+    "numbers, transform versions and the flag bytes / words the walk knows (glyf simple and composite flags, lookup flags, "
+    "coverage words, the flag byte of tupleIndex and tupleVariationCount, WOFF2 directory and hmtx transform flags); in "
+    "headers and directories they are sampled by seed per input (2 quick / 8 thorough fields per bit)",
     "a fault sequence is crossed with the entry point groups that asked the table provider for a damaged table on the "
     "intact font (all groups for header-level faults, truncation, removal and swaps)",
     "container-level expectations are exact for sfnt, collections and uncompressed WOFF tables; for zlib-wrapped WOFF "
@@ -95,10 +101,14 @@ REQUIRED_FIELD_KINDS = [
     r"^cmap:f12\.numGroups", r"^cmap:f14\.numVarSelectorRecords",
     r"^kern:f0\.nPairs", r"^kern:f2\.rowWidth", r"^post:numGlyphs", r"^sbix:numStrikes", r"^sbix:strike\.glyphDataOffset", r"^SVG :doc\.svgDocLength",
     r"^cvar:", r"^VVAR:", r"^CFF2:fdSelect\.nRanges", r"^CFF2:fdSelect\.fd", r"^CFF :fdSelect",
+    # flag fields the bit classes are for: the hmtx transform flags of the harness-built WOFF2 file, glyf simple and composite
+    # flags, tuple variation flags, lookup flags
+    r"^hmtx:xhmtx\.flags", r"^glyf:.*\.flags$", r"^gvar:.*tupleIndex\.flags", r"^gvar:.*tupleVariationCount\.flags", r"^G(SUB|POS):lookup\.flag",
 ]
 # table kinds ("dir" = container level) in which both derived classes must have been planned with an effect on the bytes and applied
 REQUIRED_DER_KINDS = ["dir", "EBLC", "EBDT", "CBLC", "CBDT", "cmap", "kern", "name", "morx", "SVG ", "hhea", "maxp", "fvar", "MVAR"]
 DER = ("der-1", "der-half")
+BITS = tuple("bit%d" % k for k in range(16))
 # kinds of field on which the classes "self" / "parent" must have been instantiated
 # table kinds ("dir" = container level) in which every relational class must have been planned with an effect on the bytes and
 # applied in the run (arrays the repository fonts carry: segment maps, cmap segments / groups, offsets, records sorted by key)
@@ -467,7 +477,7 @@ def run(ctx):
     # vacuity (a tool error only when nothing else is reported: on a tree broken so badly that nothing loads the
     # violations above are the message)
     missing = [r for r in ("count", "offset", "length", "version", "index", "value") if not counters["faults_per_role"].get(r)]
-    missing += [v for v in ("zero", "one", "max", "max-1", "hi7f", "hi80", "inc", "dec", "dbl", "half", "filelen", "tablelen", "self", "parent") + REL_PREV + REL_NEXT + DER
+    missing += [v for v in ("zero", "one", "max", "max-1", "hi7f", "hi80", "inc", "dec", "dbl", "half", "filelen", "tablelen", "self", "parent") + REL_PREV + REL_NEXT + DER + BITS
                 if not counters["faults_per_value_class"].get(v)]
     # per table kind x role: a table kind in which the walk finds count / offset / index / length / version fields but
     # none of them was overwritten in this run; the table kinds the brief names must be there at all
